@@ -30,6 +30,14 @@ CLAIMS = {
             "Lean 4 theorem (per-rule soundness, partial) + model/code correspondence + concrete-execution oracle"),
     "C12": ("proof", "Theorems ecallStep_idem, ecallStep_facts, cutOut_facts (ecall termination is idempotent per node and changes no fact), liveNode_stable (an unchanged liveness update is a fixed point). Stability of the whole pipeline is checked on the real code: arbitrary extra runs of the value pass / ecall termination / liveness after the standard pipeline must leave value maps, live sets, edges and diagnostics identical. Termination bounds are NOT proved (see known finding F-12).", "5 C12",
             "Lean 4 theorem (idempotence/fixed point lemmas, partial) + model/code correspondence with extra pass sequences"),
+    "C19": ("proof", "Theorems encode_injective and memloc_encode_injective: the tag+payload representation of AvailableValue (tags regenerated from the #[serde(rename)] attributes) and the string keys of MemoryLocation are injective, which holds exactly because the tags are pairwise distinct (value_tags_nodup; old_tags_collide shows the pre-repair collision). The real serde_yaml dump is reloaded and compared field by field with the graph it was written from, dump->load->dump must be a fixed point, and distinct analysis results must have distinct dumps, on programs exercising every value and location kind.", "5 C19",
+            "Lean 4 theorem over regenerated tags (injectivity) + real dump/reload comparison"),
+    "C14": ("proof", "Theorems class_membership_equivariant (every one of the twelve regenerated register sets is invariant under every admissible same-class renaming), admissible_fixes_args, ecall_table_args_only, reg_alias. The pipeline-level statement is checked metamorphically on the real code: diagnostics of the renamed program = renamed diagnostics of the original, for random permutations of t0-t6 and s0-s11, all transpositions on some programs, and random injective label renamings.", "5 C14",
+            "Lean 4 theorem over regenerated class tables + metamorphic renaming on the real code"),
+    "C13": ("proof", "Theorems skipWs_idem / lexNext_skipWs (spacing and optional commas are invisible to the parser), inst_case_insensitive, directive_case_insensitive, reg_alias, imm_notation (via C17). The program-level statement is checked metamorphically on the real code and the model: random compositions of all listed rewrites (layout, case, register spelling, immediate notation, label placement, zero offsets, pseudo -> official expansion) must leave the multiset of (kind, instruction) unchanged.", "5 C13",
+            "Lean 4 theorem (lexer/lookup invariances) + metamorphic rewriting on the real code + model correspondence"),
+    "C05": ("proof", "Trigger theorems saveToZero_reported, invalidSegment_reported, unknownEcall_reported (condition at a node => diagnostic of that code located on the offending operand/instruction) and the code/title/severity table theorems. Recall for all classes is checked on the real code: 13 violation classes injected one at a time at admissible sites into clean conforming programs must each yield the corresponding code located on the offending instruction/operand; lints also diffed against the Lean model. Two classes are known findings (F-22 use of a never-assigned register inside a function, F-23 fall-through into a function).", "5 C05",
+            "Lean 4 theorem (trigger lemmas over the lint model) + fault injection on the real code + model correspondence"),
 }
 
 REASON_PENDING = ("not claimed yet in this commit: executable model and theorems for this property are "
